@@ -15,6 +15,7 @@ C17 check; the reading `edgesOfS` is tied to the real flow's edge list by the C0
 (driver op `export.graph`).
 -/
 import Rpft.Lemmas.ExportGraphSorted
+import Rpft.Lemmas.ExportGraphGroups
 import Rpft.Props.C17
 set_option linter.unusedSimpArgs false
 set_option linter.unusedVariables false
@@ -208,6 +209,65 @@ theorem export_drops_dangling_exits (f : FlowX U) (rows : List (RowT U)) (h : to
   simp only at heq
   subst heq
   exact hno d hd
+
+/-! ### which NODE a row belongs to; the node graph -/
+
+/-- **Rows of one node.**  The compiler merges a row into the node its `_nodeId` names iff the row has
+exactly one edge, unconditional, coming from a row of that node (`groupRows`, flowparser.py `_parse_row`).
+On an exported sheet this rule regroups the rows exactly as the exporter grouped them: row `j` of a
+reachable node `n` (`rowId n j`, `j < |rows of n|`) belongs to the node whose FIRST row is `firstId n`;
+the first row of each block starts a node (it never merges into another one). -/
+theorem rows_grouped_as_exported (f : FlowX U) (rows : List (RowT U)) (h : toRowsT f = .ok rows) :
+    ∃ order : List (NodeX U), (∀ m, m ∈ order ↔ Reach f m) ∧ (order.map (·.uuid)).Nodup ∧
+      groupsT rows = order.flatMap nodeGroup ∧
+      ∀ (n : NodeX U) (p : TempId U × TempId U), p ∈ nodeGroup n ↔ ∃ j, j < n.rows.length ∧ p = (rowId n j, firstId n) := by
+  by_cases hne : f = []
+  · subst hne
+    simp only [toRowsT, Except.ok.injEq] at h
+    subst h
+    refine ⟨[], ?_, by simp, rfl, fun n p => mem_nodeGroup⟩
+    intro m
+    exact Iff.intro (fun hm => absurd hm (List.not_mem_nil)) (fun hr => absurd rfl (Reach.ne_nil hr))
+  · obtain ⟨n0, items, vis, sk⟩ := export_skeleton f rows h hne
+    exact ⟨blockNodes items, sk.reach, sk.nodup, sk.groups, fun n p => mem_nodeGroup⟩
+
+/-- **The node graph is preserved.**  Read with the compiler's node merging, the sheet is, as a multiset
+of edges between NODES (each identified by its first row): the start edge into the first node and, for
+every reachable node and every exit `(label, some d)` of it, one edge with that label to the node
+`find_node d` — joins, cycles, self loops and parallel edges included; the blank edges between the rows
+of one node are absorbed by the merging. -/
+theorem node_graph_preserved (f : FlowX U) (rows : List (RowT U)) (h : toRowsT f = .ok rows) :
+    ∃ order : List (NodeX U), (∀ m, m ∈ order ↔ Reach f m) ∧ (order.map (·.uuid)).Nodup ∧
+      (nodeEdges (groupsT rows) (edgesOfT rows)).Perm ((f.head?.map startEdge).toList ++ order.flatMap (nodeExits f)) := by
+  by_cases hne : f = []
+  · subst hne
+    simp only [toRowsT, Except.ok.injEq] at h
+    subst h
+    refine ⟨[], ?_, by simp, by simp [nodeEdges, edgesOfT]⟩
+    intro m
+    exact Iff.intro (fun hm => absurd hm (List.not_mem_nil)) (fun hr => absurd rfl (Reach.ne_nil hr))
+  · obtain ⟨n0, items, vis, sk⟩ := export_skeleton f rows h hne
+    refine ⟨blockNodes items, sk.reach, sk.nodup, ?_⟩
+    rw [sk.head]
+    exact sk.node_graph
+
+/-- without `_nodeId` (`--strip_uuids`) the merge rule never fires: every row is its own node — a node
+with several actions comes back as a chain of one-action nodes linked by the blank edges of `chain` -/
+theorem ungrouped_without_node_ids {I : Type} [DecidableEq I] (rows : List (I × List (Option I × Label))) :
+    groupRows (N := Unit) (rows.map (fun r => (r.1, none, r.2))) = rows.map (fun r => (r.1, r.1)) := by
+  have key : ∀ (l : List (I × List (Option I × Label))) (names : List (Unit × I)) (rep : List (I × I)),
+      (l.map (fun r => (r.1, (none : Option Unit), r.2))).foldl groupStep (names, rep)
+        = (names, (l.map (fun r => (r.1, r.1))).reverse ++ rep) := by
+    intro l
+    induction l with
+    | nil => intro names rep; rfl
+    | cons r l ih =>
+      intro names rep
+      have : groupStep (names, rep) (r.1, (none : Option Unit), r.2) = (names, (r.1, r.1) :: rep) := by
+        simp [groupStep, joinTarget]
+      simp only [List.map_cons, List.foldl_cons, this, ih]
+      simp
+  simp [groupRows, key]
 
 /-! ### (b) ORDER: in which order does a router get its cases back?
 
@@ -489,6 +549,19 @@ theorem exG_node_rows : (nodeRowsT rowsG).map (fun x => (x.1.2, x.2.1, x.2.2.2))
     [ ("msg.a".toList, some 0, "a1".toList), ("msg.a.1".toList, some 0, "a2".toList),
       ("split.x".toList, some 1, "w".toList), ("msg.b".toList, some 2, "b".toList),
       ("msg.c".toList, some 3, "c".toList) ] := by decide +kernel
+
+/-- the compiler's merge rule on the sheet of `exG`: the two rows of msg.a form one node, and the node
+graph is the flow's reachable graph -/
+theorem exG_groups_and_node_graph :
+    (groupsT rowsG).map (fun p => (p.1.2, p.2.2)) =
+      [ ("msg.a".toList, "msg.a".toList), ("msg.a.1".toList, "msg.a".toList), ("split.x".toList, "split.x".toList),
+        ("msg.b".toList, "msg.b".toList), ("msg.c".toList, "msg.c".toList) ] ∧
+    view (nodeEdges (groupsT rowsG) (edgesOfT rowsG)) =
+      [ ("start".toList, [], "msg.a".toList), ("msg.a".toList, [], "split.x".toList),
+        ("split.x".toList, "c1".toList, "msg.b".toList), ("split.x".toList, "c3".toList, "msg.b".toList),
+        ("split.x".toList, "c2".toList, "msg.c".toList), ("msg.b".toList, [], "msg.c".toList),
+        ("split.x".toList, "c5".toList, "split.x".toList), ("split.x".toList, "c6".toList, "msg.a".toList) ] :=
+  ⟨by decide +kernel, by decide +kernel⟩
 
 /-- instances of the per-node theorems at the router of `exG` (hypotheses are satisfiable) -/
 example : (outOf (lastId gX) (edgesOfT rowsG)).Perm (exitsEdges exG gX) :=
